@@ -70,7 +70,7 @@ def _run_main(ctx):
         evs, _ = ctx.events('io_loop::Inner::seal_writes')
         r.check('seal_writes:calls-seal', any(e.kind == 'call' and S.show(e.term) == 'serialize::SealableOutputBuffer::seal(self.outbuf)' and S.unconditional(e, evs) for e in evs), ctx.site('io_loop::Inner::seal_writes'))
 
-    with ctx.rule('R08.2', 'the seal gates every producer of SealableOutputBuffer; sealed is only ever set; buffer private', floor=8) as r:
+    with ctx.rule('R08.2', 'the seal gates every producer of SealableOutputBuffer; sealed is only ever set; buffer private', floor=10) as r:
         SB = 'serialize::SealableOutputBuffer::'
         for nm, params, eff in (('push_heartbeat', ['self'], 'serialize::OutputBuffer::push_heartbeat(self.buf)'),
                                 ('push_method', ['self', 'channel_id', 'method'], 'serialize::OutputBuffer::push_method(self.buf, channel_id, method)'),
@@ -110,6 +110,22 @@ def _run_main(ctx):
                     fv = dict((n_, H.term(e_)) for n_, e_ in nd['fields'])
                     lits.append((ctx.owner(p), fv.get('buf'), fv.get('sealed')))
         r.check('constructed-unsealed', lits == [(SB + 'new', 'buf', 'false')], None, built=lits, expected='only SealableOutputBuffer::new builds one: {buf: buf, sealed: false}')
+        # ... and the sealed buffer is never swapped for a fresh (unsealed) one: one constructor call, no whole-value overwrite
+        A.unique_callers(ctx, r, 'new:callers', SB + 'new', ['io_loop::Inner::new'], why='a second SealableOutputBuffer would start unsealed')
+        over = []
+        for p, fn in ctx.fns.items():
+            if 'hir' not in fn or fn.get('cfg_test'):
+                continue
+            for nd in H.walk(fn['hir']):
+                tgt = None
+                if nd.get('k') == 'Assign':
+                    tgt = nd['l']
+                elif nd.get('k') in ('Call', 'MethodCall') and S.norm_path(H.callee_path(nd) or '') in ('std::mem::replace', 'std::mem::swap', 'std::mem::take', 'core::mem::replace', 'core::mem::swap', 'core::mem::take') and H.call_args(nd):
+                    tgt = H.call_args(nd)[0]
+                if tgt is not None and S.norm_path((tgt.get('ty') or '').replace('&mut ', '').replace('&', '').strip()) == 'serialize::SealableOutputBuffer':
+                    over.append((ctx.owner(p), H.term(tgt)))
+        r.check('never-replaced', not over, None, built=over, expected='no assignment to (or mem::replace / take / swap of) a whole SealableOutputBuffer',
+                why='replacing the buffer by a new one drops the seal together with the allocation')
 
     with ctx.rule('R08.3', "the client's close frame: Connection.Close{200, goodbye, 0, 0} as ConnectionClose message awaiting CloseOk", floor=3) as r:
         ems, ret, events = W.read_op(ctx, 'connection::Connection::close', ['self'])
